@@ -142,9 +142,10 @@ inductive Call
   | renameVar (v : VarArg) (nameBad inUse : Bool) (oldLen newLen : Nat)
   | renameDim (nameBad dimBad inUse : Bool) (oldLen newLen : Nat)
   -- blocking data access (var/var1/vara/vars/varm/varn/vard/mput families share sanity_check)
-  | rw (isPut coll : Bool) (v : VarArg) (text coordBad : Bool) (varn : Bool)   -- varn: the put/get_varn family
+  | rw (isPut coll : Bool) (v : VarArg) (text coordBad : Bool) (varn zeroLen : Bool)
+      -- varn: the put/get_varn family; zeroLen: num == 0 (varn), a zero in count[], bufcount == 0, null filetype
   -- nonblocking
-  | post (k : PostKind) (v : VarArg) (text coordBad : Bool)
+  | post (k : PostKind) (v : VarArg) (text coordBad : Bool) (varn zeroLen : Bool)
   | wait (coll zero : Bool)                    -- num_reqs = NC_REQ_ALL, or 0 if `zero`
   | cancel (zero : Bool)
   -- sync / fill / buffer
@@ -341,11 +342,12 @@ def fillVarRec (v : VarArg) (s : State) : Out :=
   else { st := s, err := .noerr, wr := true }
 
 /-- ncmpio_iput_var / iget_var / bput_var: queue one lead request -/
-def post (k : PostKind) (s : State) : Out :=
+def post (k : PostKind) (zeroLen : Bool) (s : State) : Out :=
   match k with
-  | .iget => ret { s with nGet := s.nGet + 1 } .noerr
-  | .iput => ret { s with nPut := s.nPut + 1 } .noerr
-  | .bput => if !s.abuf then ret s .enullabuf
+  | .iget => if zeroLen then ret s .noerr else ret { s with nGet := s.nGet + 1 } .noerr
+  | .iput => if zeroLen then ret s .noerr else ret { s with nPut := s.nPut + 1 } .noerr
+  | .bput => if !s.abuf then ret s .enullabuf               -- ncmpio_bput_var: abuf == NULL first
+             else if zeroLen then ret s .noerr              -- nbytes == 0: *reqid = NC_REQ_NULL, nothing queued
              else ret { s with nPut := s.nPut + 1, nBput := s.nBput + 1 } .noerr
 
 end Drv
@@ -468,23 +470,27 @@ def step (cfg : Cfg) (s : State) (c : Call) : Out :=
     else if dimBad then ret s .ebaddim
     else if inUse then ret s .enameinuse
     else Drv.rename oldLen newLen s
-  | .rw isPut coll v text coordBad varn =>
+  | .rw isPut coll v text coordBad varn zeroLen =>
+    -- sanity_check comes FIRST for every form, zero-length or not
     let e0 := sanityCheck s.d isPut true coll v text
-    -- check_start_count_stride only if the sanity check passed
-    let e := if e0 != .noerr then e0 else if coordBad then .einvalcoords else .noerr
-    if e == .noerr then { st := s, err := .noerr, wr := isPut }
+    -- then: varn with num == 0 goes to err_check before looking at starts/counts; all other forms run
+    -- check_start_count_stride (a zero in count[] / bufcount == 0 / a null filetype are noticed later)
+    let e := if e0 != .noerr then e0 else if varn && zeroLen then .noerr
+             else if coordBad then .einvalcoords else .noerr
+    if e == .noerr then { st := s, err := .noerr, wr := isPut && !zeroLen }   -- zero-length: nothing is written
     else if !coll then ret s e                               -- independent API: return now
     else if e == .eperm || e == .eindefine || e == .eindep || e == .enotindep then ret s e   -- fatal
     else if !cfg.multi then ret s e                          -- nprocs == 1: return err
     -- reqMode |= NC_REQ_ZERO; the driver is called; `(err != NC_NOERR) ? err : status`
     else if varn then { Drv.waitNull s with err := e }       -- ncmpio_put/get_varn: ncmpio_wait(1, {NC_REQ_NULL})
     else ret s e                                             -- ncmpio_getput_zero_req: collective MPI calls only
-  | .post k v text coordBad =>
+  | .post k v text coordBad varn zeroLen =>
     let e := sanityCheck s.d (k != .iget) false false v text
     if e != .noerr then ret s e
+    else if varn && zeroLen then ret s .noerr               -- IVARN: `if (num == 0) return NC_NOERR;` right after sanity_check
     else if k == .bput && !s.abuf then ret s .enullabuf     -- inq_misc(..., &buf_size)
     else if coordBad then ret s .einvalcoords
-    else Drv.post k s
+    else Drv.post k zeroLen s                               -- flexible bufcount == 0 returns here too: same result
   | .wait coll zero => Drv.wait coll zero s
   | .cancel zero => Drv.cancel zero s
   | .sync => Drv.sync s
